@@ -21,7 +21,7 @@ from symex import show, walk
 EXPLANATION = __doc__
 TRUSTED = ["rustc / extractor", "sha1 and num-bigint implement SHA-1 / integer arithmetic; BigInt::modpow returns the non-negative residue", "a linear scan with exit test s[i] != 0 counts the leading zero bytes", "SRP-6 algebra"]
 NOT_DECIDED = ["correctness of sha1 / num-bigint", "the SRP-6 and linear-scan lemmas themselves"]
-FLOORS = {"transcript": 6, "formula": 5, "client-group": 4, "constant": 8, "interleave": 7, "carrier": 10}
+FLOORS = {"transcript": 6, "formula": 5, "client-group": 4, "constant": 8, "interleave": 7, "carrier": 10, "totality": 20}
 
 N_BE = bytes.fromhex("894B645E89E1535BBDAD5B8B290650530801B18EBFBF5E8FAB3C82872A3E9BB7")
 G = 7
@@ -1200,3 +1200,8 @@ def check(ctx, rep):
     client_group(ctx, rep)
     constants(ctx, rep)
     interleave_rules(ctx, rep)
+    # "the values that come out of the public API": a value has to come out - for every input,
+    # every announced group (C14's obligations over the SRP exchange, re-filed)
+    if not isinstance(rep, util.Refile):
+        from . import c14
+        c14.totality(ctx, rep, "totality", lambda r: r.startswith(("client::", "server::", "srp_internal")), "the SRP exchange (client::, server::)")
